@@ -85,7 +85,9 @@ func buildCallGraph(p *Program) *CallGraph {
 						cg.Edges[fn] = append(cg.Edges[fn], cgEdge{To: t, Site: in, Async: async || isGo, Defer: isDefer})
 					}
 				}
+				byField := false
 				if ts, ok := cb[ci]; ok {
+					byField = true
 					for _, t := range ts {
 						add(t, false)
 					}
@@ -97,10 +99,12 @@ func buildCallGraph(p *Program) *CallGraph {
 					continue
 				}
 				if cc.IsInvoke() {
+					if byField {
+						continue // resolved through the callback field it is invoked on
+					}
 					// a dynamic site that is in neither table (introduced after the reference tree): resolve it
 					// conservatively by class hierarchy over the library's types
-					key := p.FuncName(fn) + "|" + func() string { _, n := p.calleeOf(cc); return n }()
-					if _, ext := externalDynamic[key]; !ext {
+					if _, n := p.calleeOf(cc); !isExternalDynamic(p, fn, n) {
 						if iface, ok := cc.Value.Type().Underlying().(*types.Interface); ok {
 							for _, T := range cg.libTypes() {
 								if types.Implements(T, iface) {
@@ -244,17 +248,36 @@ func resolveDynamic(p *Program, fn *ssa.Function, ci ssa.CallInstruction) ([]*ss
 	if !cc.IsInvoke() && name != "dyn" {
 		return nil, false
 	}
-	key := p.FuncName(fn) + "|" + name
-	if ts, ok := dynamicTable[key]; ok {
-		var out []*ssa.Function
-		for _, t := range ts {
-			if f := p.FuncOpt(t); f != nil {
-				out = append(out, f)
+	// the site's own function, or (for a helper that is not part of the reference tree) the reference functions it was extracted from
+	for _, owner := range dynOwners(p, fn) {
+		if ts, ok := dynamicTable[owner+"|"+name]; ok {
+			var out []*ssa.Function
+			for _, t := range ts {
+				if f := p.FuncOpt(t); f != nil {
+					out = append(out, f)
+				}
 			}
+			return out, true
 		}
-		return out, true
 	}
 	return nil, false
+}
+
+func dynOwners(p *Program, fn *ssa.Function) []string {
+	name := p.rawName(fn)
+	if knownFuncs[name] {
+		return []string{name}
+	}
+	return append([]string{name}, p.siteOwners(fn)...)
+}
+
+func isExternalDynamic(p *Program, fn *ssa.Function, callee string) bool {
+	for _, owner := range dynOwners(p, fn) {
+		if _, ok := externalDynamic[owner+"|"+callee]; ok {
+			return true
+		}
+	}
+	return false
 }
 
 // unresolvedDynamic lists dynamic call sites that are in neither table and could reach a library method.
@@ -271,10 +294,10 @@ func unresolvedDynamic(p *Program) []string {
 	for _, cs := range p.CallSites() {
 		cc := cs.Instr.Common()
 		key := p.FuncName(cs.Fn) + "|" + cs.Name
-		if _, ok := dynamicTable[key]; ok {
+		if _, ok := resolveDynamic(p, cs.Fn, cs.Instr); ok {
 			continue
 		}
-		if _, ok := externalDynamic[key]; ok {
+		if isExternalDynamic(p, cs.Fn, cs.Name) {
 			continue
 		}
 		if cc.IsInvoke() {
